@@ -42,6 +42,7 @@ rev('C06', 'revert_generate_feature_cache.diff', 'generate_feature memoised acro
 rev('C13', 'revert_wrap_type_mapping.diff', 'empty wrap.Actor.type mapping skips the API defaults')
 rev('C08', 'revert_schema_getitem_cache.diff', 'Schema.__getitem__ memoised while reading attribute keys')
 rev('C08', 'revert_source_getitem_zip.diff', 'Source.__getitem__ zips schema with features')
+rev('C08', 'revert_source_getitem_cache.diff', 'Source.__getitem__ memoised while resolving through attribute keys')
 rev('C08', 'revert_window_ordering.diff', 'Window stores the ordering generator')
 rev('C08', 'revert_factors_pickle.diff', 'cached factors hold an unpicklable mapping proxy')
 rev('C08', 'revert_alias_identity.diff', 'equality proxy over the de-aliased operand')
